@@ -73,7 +73,7 @@ def gen_base(rng, tier, index):
             "presize": presize, "extra_ids": [max(ids) + 1 if ids else 1, max(ids) + 40 if ids else 40],
             "parent_polls": rng.random() < 0.8, "parent_writes_late": index % 3 == 0, "seed": rng.randrange(1 << 20),
             "max_reads": 250, "calls": [], "writer_reopens": index % 4 == 2, "linger": rng.choice([0, 0, 0.05, 0.15]),
-            "parent_reads_before_fork": index % 4 == 3, "raw_fork_readers": (1 + index % 2) if index % 8 == 3 else 0,
+            "parent_reads_before_fork": index % 4 == 3, "raw_fork_readers": (1 + index % 2) if index % 4 == 3 else 0,
             "late_user": index % 3 == 1, "parent_iterates": index % 2 == 1, "companion_storage": index % 3 == 0,
             "parent_stores_first": [max(ids) + 5, max(ids) + 6] if (ids and (index % 4 == 0 or index % 8 == 2)) else [],
             "parent_stores_during": [max(ids) + 8 + j for j in range(3)] if (ids and (index % 4 == 0 or index % 8 == 2)) else []}
